@@ -52,6 +52,16 @@ def check(rng, override=None):
         n += 1
         if max(np.abs(Gr[o][z] - Gn[o][z]).max() for o in ('k', 'c') for z in Z) > 1e-9:
             C.push(out, dict(what='reusing saved Jacobians / factorisations changes the nested G', input=inp, signature=dict(op='reuse', calibration=ci)))
+        # the flat problem solved with a factorisation built once and the targets then listed in the other order: same problem, must still equal the nested form
+        HUf = flat.jacobian(ssf, ['k', 'p'], ['res_k', 'res_p'], T=T).factored(T)
+        Gp = flat.solve_jacobian(ssf, ['k', 'p'], ['res_p', 'res_k'], Z, T=T, H_U_factored=HUf)
+        lp = flat.solve_impulse_linear(ssf, ['k', 'p'], ['res_p', 'res_k'], {'z': 0.01 * 0.5 ** np.arange(T)}, H_U_factored=HUf)
+        lq = nm.solve_impulse_linear(ssn, ['p'], ['res_p'], {'z': 0.01 * 0.5 ** np.arange(T)})
+        n += 1
+        dev = max(max(np.abs(Gn[o][z] - Gp[o][z]).max() for o in ('k', 'p', 'c', 'y', 'd', 's') for z in Z), max(np.abs(lp[k][:T - 4] - lq[k][:T - 4]).max() for k in ('k', 'p', 'c', 's')))
+        if dev > 1e-7:
+            C.push(out, dict(what='flat general-equilibrium Jacobian / linear impulse with a reused factorisation and the targets listed in another order differs from the nested form', input=inp, observed=float(dev),
+                             signature=dict(op='G-factored-permuted', calibration=ci)))
         sh = {'z': 0.01 * 0.5 ** np.arange(T), 'm': np.r_[0.0, 0.005, np.zeros(T - 2)]}
         lf = flat.solve_impulse_linear(ssf, ['k', 'p'], ['res_k', 'res_p'], sh)
         ln = nm.solve_impulse_linear(ssn, ['p'], ['res_p'], sh)
